@@ -242,7 +242,7 @@ def run(ctx):
         # variants are chosen by the content of the behaviour (TLC's workers print in no fixed order)
         h = zlib.crc32(json.dumps([rec["rows"], rec["style"], rec["T"], rec["ind"], rec["al"]]).encode())
         case = case_of(rec, ansi=(h % 2 == 0))
-        if fam == "draw" and (h // 2) % (16 if quick else 64) == 0 and any(rec["rows"][0][0]):
+        if fam == "draw" and (h // 2) % (64 if quick else 256) == 0 and any(rec["rows"][0][0]):
             case["tagged"] = [1]
             case["runA"] = False
         if rec["style"] == "ascii" and (h // 128) % 3 == 0:
